@@ -224,3 +224,15 @@ _mk("C20",
                "Script discovery, input parsing and encoders are decided by comparing the real binary with the library API on generated workspaces.",
     level_note="Partial: cobra flag handling, influx line protocol and JSON encoders are exercised, not modelled.",
     extra_tb=["cobra, influxdb1-client, encoding/json, zap (observed through the binary)"], exhaustive=False)
+
+_mk("C18",
+    ["Platypus.Properties.C18"],
+    rule="v2 engine (engine.ParseV2 + Script.Run) with probe functions supplied through the function table (p records, pr records and returns its first argument, void returns nothing, multi returns two values, len): "
+         "33 consuming positions (assignment source, condition, operands, arguments, loop clauses, iterable, list/map elements and keys, index, every slice bound, unary, membership, compound assignment, multi-assignment, parenthesis) "
+         "x 9 constructs (void call, attribute expression, multi-value calls, empty pr, variable, literal, undefined name, nil); multi-assignment programs; random programs of the shared language "
+         "(expressions, collections, slices, control flow, scoping) with the signal as watchdog; compared with the v2 register-machine model: outcome, error chain, probe trace, polls; strict",
+    technique="Lean 4 model of the v2 register machine + theorems (value positions demand exactly one register value; calls and attribute expressions reset the registers; undefined names are errors; multi-assignment evaluates the right side first) + consuming-position matrix correspondence",
+    level_text="Kernel-checked properties of the register machine model: a construct that yields no value leaves the registers empty and every value position then reports an error instead of reading an earlier value; "
+               "the model is tied to run.go by the position x construct matrix and random programs.",
+    level_note="The refinement to a register-free direct semantics is stated in the file (see DESIGN.md); v1/v2 agreement on the shared fragment is exercised by generators sharing the operator tables (C02Facts).",
+    extra_tb=[TB_FLOAT], exhaustive=False)
